@@ -771,3 +771,6 @@ def run(prog: Program, chk: Check) -> None:
     chk.call(n4, prog, chk)
     chk.call(n5, prog, chk)
     chk.call(n6, prog, chk)
+    # the basis-change superoperators of both methods (row-major vectorisation: U (x) U^*)
+    from rules.c05 import e2 as _rotation_pairs
+    chk.call(_rotation_pairs, prog, chk, rule="N7")
